@@ -53,7 +53,10 @@ instance (all : List Rev) (id : Nat) : Decidable (ArchiveOK all id) := by
 
 /-- A `delete` addressed to name `id` is allowed: `id` names a previous revision that is among
 the `|prev| − revisionHistoryLimit` oldest ones (fewer than that many previous revisions are
-strictly older).  Nothing may be deleted when `|prev| ≤ limit`. Default limit 10 (CRD default). -/
+strictly older).  Nothing may be deleted when `|prev| ≤ limit`. Default limit 10 (CRD default).
+`prev` is every previous revision the pass listed — a revision that is still terminating from an
+earlier pruning round is listed, takes one of the `|prev|` places and counts as an older revision;
+skipping over it must not make the pass reach for a newer one. -/
 def DeleteOK (prev : List Rev) (limit : Option Int) (id : Nat) : Prop :=
   ∃ p ∈ prev, p.id = id ∧
     ((prev.countP (fun q => decide (q.rev < p.rev)) : Nat) : Int) < (prev.length : Int) - limit.getD 10
@@ -67,9 +70,13 @@ def dels : List Write → List Nat
   | .delete i :: ws => i :: dels ws
   | _ :: ws => dels ws
 
-/-- Pruning proceeds from the oldest end without gaps. -/
+/-- Pruning proceeds from the oldest end without gaps: when a previous revision is deleted, every
+older previous revision is deleted in the same pass or is already on its way out (it is listed with
+a deletionTimestamp: an earlier round deleted it and its teardown has not finished).  The sentence
+does not ask for a second `Delete` of a terminating revision — it asks that nothing *newer* than a
+kept revision goes. -/
 def GcClosed (prev : List Rev) (ds : List Nat) : Prop :=
-  ∀ p ∈ prev, p.id ∈ ds → ∀ q ∈ prev, q.rev < p.rev → q.id ∈ ds
+  ∀ p ∈ prev, p.id ∈ ds → ∀ q ∈ prev, q.rev < p.rev → q.id ∈ ds ∨ q.terminating = true
 
 instance (prev : List Rev) (ds : List Nat) : Decidable (GcClosed prev ds) := by
   unfold GcClosed; infer_instance
